@@ -481,7 +481,7 @@ def check_shapes(ctx, us, seed, tag):
         run.count("shapes15:call")
 
     with warnings.catch_warnings():
-        warnings.simplefilter("error")          # the conversions themselves must not warn
+        warnings.simplefilter("default")        # a warning alone is never a violation (a rewrite may use a call that warns)
         s = str(rng.choice([aware, naive]))
         t = str(naive).replace(" ", "T")
         tf = "%Y-%m-%dT%H:%M:%S.%f" if "." in t else "%Y-%m-%dT%H:%M:%S"
